@@ -780,8 +780,9 @@ func c20listedWhileNonEmpty(c *Ctx) {
 				continue
 			}
 			usesRecoveryID := false
-			for _, a := range cc.Args {
-				if engine.AnyBackward(a, engine.FlowOpts{Loads: true}, func(x ssa.Value) bool {
+			var fromRecovery func(v ssa.Value, depth int) bool
+			fromRecovery = func(v ssa.Value, depth int) bool {
+				return engine.AnyBackward(v, engine.FlowOpts{Loads: true}, func(x ssa.Value) bool {
 					if call, ok := x.(*ssa.Call); ok {
 						if call.Call.IsInvoke() && call.Call.Method.Name() == "GetRecoveryMailboxID" {
 							return true
@@ -795,8 +796,23 @@ func c20listedWhileNonEmpty(c *Ctx) {
 							return true
 						}
 					}
+					// the id handed to a helper of List: what the call sites pass
+					if p, ok := x.(*ssa.Parameter); ok && depth > 0 && p.Parent() != f && p.Parent().Parent() == nil {
+						ix := engine.ParamIndex(p.Parent(), p)
+						callers := P.CallersOf(p.Parent())
+						all := ix >= 0 && len(callers) > 0
+						for _, site := range callers {
+							if ix >= len(site.Common().Args) || !fromRecovery(site.Common().Args[ix], depth-1) {
+								all = false
+							}
+						}
+						return all
+					}
 					return false
-				}) {
+				})
+			}
+			for _, a := range cc.Args {
+				if fromRecovery(a, 2) {
 					usesRecoveryID = true
 				}
 			}
